@@ -4,6 +4,7 @@ package font
 
 import (
 	"errors"
+	"reflect"
 
 	"github.com/go-text/typesetting/font/opentype/tables"
 )
@@ -212,11 +213,10 @@ func newGSUB(table tables.Layout) (GSUB, error) {
 				return GSUB{}, err
 			}
 
-			// the direction in which a lookup is applied is chosen from its first subtable:
-			// all the subtables (of an extension lookup) must agree on it
-			_, isReverse := subtables[j].(tables.ReverseChainSingleSubs)
-			if _, firstIsReverse := subtables[0].(tables.ReverseChainSingleSubs); isReverse != firstIsReverse {
-				return GSUB{}, errors.New("invalid GSUB lookup: mixed reverse and forward subtables")
+			// all the subtables of a lookup (through an extension) must have the same type: the direction
+			// in which it is applied, and the state of the glyph iterators, are set once per lookup
+			if reflect.TypeOf(subtables[j]) != reflect.TypeOf(subtables[0]) {
+				return GSUB{}, errors.New("invalid GSUB lookup: subtables of different types")
 			}
 		}
 		out.Lookups[i] = GSUBLookup{
@@ -278,6 +278,12 @@ func newGPOS(table tables.Layout) (GPOS, error) {
 			}
 			if err != nil {
 				return GPOS{}, err
+			}
+
+			// all the subtables of a lookup (through an extension) must have the same type:
+			// the state of the glyph iterators is set once per lookup
+			if reflect.TypeOf(subtables[j]) != reflect.TypeOf(subtables[0]) {
+				return GPOS{}, errors.New("invalid GPOS lookup: subtables of different types")
 			}
 		}
 		out.Lookups[i] = GPOSLookup{
